@@ -449,9 +449,12 @@ fn oracle(r: &mut Report, rng: &mut Rng, m: &MMappings, sc: &mut Scratch, with_d
 	if cl.len() != m.classes.len() {
 		r.violation(format!("{} classes in the set, {} CLASS lines written", m.classes.len(), cl.len()), replay("number of CLASS lines differs from the number of classes", m, &format!("written text:\n{}\n", text_of(&text))));
 	} else {
-		let mut depths: Vec<usize> = m.classes.iter().map(|c| depth(m, c)).collect(); depths.sort();
-		let mut got: Vec<usize> = cl.iter().map(|x| x.0).collect(); got.sort();
-		if depths != got { r.violation("indentation depths of the CLASS lines differ from the nesting depths of the source names".into(), replay("nesting not mirrored", m, &format!("written text:\n{}\n", text_of(&text)))); }
+		// (indentation, first token) of every CLASS line: depth of the chain of present ancestors, and the full source
+		// name at depth 0 / the part after the last `$` below a parent
+		let mut want_lines: Vec<(usize, S)> = m.classes.iter().map(|c| { let d = depth(m, c); (d, if d == 0 { key(c) } else { split_inner(&key(c)).map(|x| x.1).unwrap_or_else(|| key(c)) }) }).collect();
+		want_lines.sort();
+		let mut got = cl.clone(); got.sort();
+		if want_lines != got { r.violation("indentation depths / names of the CLASS lines differ from the nesting of the source names".into(), replay("nesting not mirrored", m, &format!("written text:\n{}\n", text_of(&text)))); }
 	}
 	// exactly one file: write_one per file name; every class must be read back from exactly one of them
 	let mut per_file: BTreeMap<S, usize> = BTreeMap::new();
